@@ -116,6 +116,18 @@ Section Forall2b.
     end.
 End Forall2b.
 
+Section OptList.
+  Context {A B : Type}.
+  Variable f : A -> option B.
+  Fixpoint mapO (l : list A) : option (list B) :=
+    match l with
+    | [] => Some []
+    | a :: l' => match f a, mapO l' with Some b, Some bs => Some (b :: bs) | _, _ => None end
+    end.
+End OptList.
+
+Definition is_some {A} (o : option A) : bool := match o with Some _ => true | None => false end.
+
 Definition is_skip (a : attr) : bool := match a with ASkip => true | _ => false end.
 
 (* field_should_skip *)
@@ -149,6 +161,60 @@ Fixpoint has_plain (t : ty) (v : tree) {struct t} : bool :=
 (* the blanket impl: convert_into = Ok(self.clone()), convert_from = Ok(data) *)
 Definition clone_plain (t : ty) (v : tree) : res tree :=
   if plain_ty t && has_plain t v then Ok v else Bad.
+
+(* ------------------------------------------------------------------ *)
+(* the generated Data definition *)
+
+(* replace_entity_type; None = the macro panics *)
+Fixpoint replace_ty (t : ty) : option ty :=
+  match t with
+  | TPrim | TEntity | TNamed _ _ | TParam | TDataOf _ => Some (TDataOf t)     (* Type::Path *)
+  | TTuple l => option_map TTuple (mapO replace_ty l)
+  | TArray t' n => option_map (fun u => TArray u n) (replace_ty t')
+  | TOther => None
+  end.
+
+(* replace_attributes *)
+Definition replace_attrs (l : list attr) : list attr :=
+  flat_map (fun a => match a with ASkip => [] | AFwd x => [AOther x] | AOther x => [AOther x] end) l.
+
+(* replace_field *)
+Definition replace_field (f : field) : option field :=
+  if fskip f then Some (mkField (fname f) (replace_attrs (fattrs f)) (fty f))
+  else option_map (mkField (fname f) (replace_attrs (fattrs f))) (replace_ty (fty f)).
+
+Fixpoint replace_field_list (l : list field) : option (list field) :=
+  match l with
+  | [] => Some []
+  | f :: l' => match replace_field f, replace_field_list l' with
+               | Some g, Some gs => Some (g :: gs)
+               | _, _ => None
+               end
+  end.
+
+Definition replace_fields (fs : fields) : option fields :=
+  match fs with
+  | FUnit => Some FUnit
+  | FTuple l => option_map FTuple (replace_field_list l)
+  | FNamed l => option_map FNamed (replace_field_list l)
+  end.
+
+Fixpoint replace_variants (vs : list variant) : option (list variant) :=
+  match vs with
+  | [] => Some []
+  | v :: vs' => match replace_fields (vfields v), replace_variants vs' with
+                | Some fs, Some ws => Some (mkVariant (vname v) (replace_attrs (vattrs v)) fs :: ws)
+                | _, _ => None
+                end
+  end.
+
+(* `<Name>SaveloadData<.., MA>`; None = the macro panics *)
+Definition data_def (d : def) : option def :=
+  match d with
+  | DStruct _ FUnit => None
+  | DStruct g fs => option_map (DStruct g) (replace_fields fs)
+  | DEnum g vs => option_map (DEnum g) (replace_variants vs)
+  end.
 
 (* The emitted `<Name>SaveloadData<.., MA>` mentions its parameter `MA` only in
    the types of converted fields (`<T as ConvertSaveload<MA>>::Data`); when no
@@ -213,13 +279,13 @@ Section Conv.
     end.
 
   Definition conv_def (parg : tree -> res tree) (d : def) (v : tree) : res tree :=
-    if has_converted d then
+    if is_some (data_def d) && has_converted d then   (* else: the macro panics / rustc rejects its output *)
       match d with
       | DStruct _ FUnit => Bad          (* saveload_struct panics on unit structs *)
       | DStruct _ fs => conv_fields parg fs v
       | DEnum _ vs => match v with Var vn body => conv_variants parg vs vn body | _ => Bad end
       end
-    else Bad.                           (* E0392: the emitted definition does not use `MA` *)
+    else Bad.
 End Conv.
 
 (* tie the knot over the environment: structural on the list of definitions *)
@@ -262,66 +328,6 @@ Definition derive_into (E : env) (d : def) (targ : option ty) (v : tree) (ids : 
   conv_def (into_leaf ids) (conv_env (into_leaf ids) E) (param_conv (into_leaf ids) E targ) d v.
 Definition derive_from (E : env) (d : def) (targ : option ty) (x : tree) (ids : Z -> option entity) : res tree :=
   conv_def (from_leaf ids) (conv_env (from_leaf ids) E) (param_conv (from_leaf ids) E targ) d x.
-
-(* ------------------------------------------------------------------ *)
-(* the generated Data definition *)
-
-(* replace_entity_type; None = the macro panics *)
-Fixpoint replace_ty (t : ty) : option ty :=
-  match t with
-  | TPrim | TEntity | TNamed _ _ | TParam | TDataOf _ => Some (TDataOf t)     (* Type::Path *)
-  | TTuple l =>
-      option_map TTuple
-        ((fix go (l : list ty) : option (list ty) :=
-            match l with
-            | [] => Some []
-            | x :: l' => match replace_ty x, go l' with Some y, Some ys => Some (y :: ys) | _, _ => None end
-            end) l)
-  | TArray t' n => option_map (fun u => TArray u n) (replace_ty t')
-  | TOther => None
-  end.
-
-(* replace_attributes *)
-Definition replace_attrs (l : list attr) : list attr :=
-  flat_map (fun a => match a with ASkip => [] | AFwd x => [AOther x] | AOther x => [AOther x] end) l.
-
-(* replace_field *)
-Definition replace_field (f : field) : option field :=
-  if fskip f then Some (mkField (fname f) (replace_attrs (fattrs f)) (fty f))
-  else option_map (mkField (fname f) (replace_attrs (fattrs f))) (replace_ty (fty f)).
-
-Fixpoint replace_field_list (l : list field) : option (list field) :=
-  match l with
-  | [] => Some []
-  | f :: l' => match replace_field f, replace_field_list l' with
-               | Some g, Some gs => Some (g :: gs)
-               | _, _ => None
-               end
-  end.
-
-Definition replace_fields (fs : fields) : option fields :=
-  match fs with
-  | FUnit => Some FUnit
-  | FTuple l => option_map FTuple (replace_field_list l)
-  | FNamed l => option_map FNamed (replace_field_list l)
-  end.
-
-Fixpoint replace_variants (vs : list variant) : option (list variant) :=
-  match vs with
-  | [] => Some []
-  | v :: vs' => match replace_fields (vfields v), replace_variants vs' with
-                | Some fs, Some ws => Some (mkVariant (vname v) (replace_attrs (vattrs v)) fs :: ws)
-                | _, _ => None
-                end
-  end.
-
-(* `<Name>SaveloadData<.., MA>`; None = the macro panics *)
-Definition data_def (d : def) : option def :=
-  match d with
-  | DStruct _ FUnit => None
-  | DStruct g fs => option_map (DStruct g) (replace_fields fs)
-  | DEnum g vs => option_map (DEnum g) (replace_variants vs)
-  end.
 
 (* ------------------------------------------------------------------ *)
 (* well-typed values of a shape, and the supported shapes *)
@@ -376,8 +382,6 @@ Definition value_of_def (E : env) (d : def) (targ : option ty) (v : tree) : bool
 
 Definition def_generic (d : def) : bool := match d with DStruct g _ | DEnum g _ => g end.
 
-Definition is_some {A} (o : option A) : bool := match o with Some _ => true | None => false end.
-
 (* the k-th definition and the definitions before it *)
 Fixpoint lookup (E : env) (k : nat) : option (def * env) :=
   match E with
@@ -424,6 +428,68 @@ Fixpoint sup_env (E : env) : bool :=
   | [] => true
   | d :: E' => sup_def E' d && sup_env E'
   end.
+
+(* ------------------------------------------------------------------ *)
+(* data of the generated definitions: typing of data trees against [data_def] *)
+
+Section DataTyping.
+  (* data of the k-th definition, given the typing of its type argument's Data *)
+  Variable rec : nat -> (tree -> bool) -> tree -> bool.
+
+  (* [x] is a value of <t as ConvertSaveload<MA>>::Data *)
+  Fixpoint has_data_of (parg : tree -> bool) (t : ty) (x : tree) {struct t} : bool :=
+    match t with
+    | TPrim | TTuple _ | TArray _ _ => plain_ty t && has_plain t x     (* blanket impl: Data = Self *)
+    | TEntity => match x with Mark _ => true | _ => false end          (* Entity impl: Data = MA *)
+    | TNamed k a => rec k (match a with Some ta => has_data_of parg ta | None => fun _ => false end) x
+    | TParam => parg x
+    | TOther | TDataOf _ => false
+    end.
+
+  (* [x] is a value of the field type [t] of a generated definition *)
+  Fixpoint has_dty (parg : tree -> bool) (t : ty) (x : tree) {struct t} : bool :=
+    match t with
+    | TDataOf t' => has_data_of parg t' x
+    | TPrim => match x with Prim _ => true | _ => false end
+    | TTuple ts => match x with Seq l => forall2b (has_dty parg) ts l | _ => false end
+    | TArray t' n => match x with Seq l => N.eqb (N.of_nat (length l)) n && forallb (has_dty parg t') l | _ => false end
+    | _ => false
+    end.
+
+  Definition dhas_fields (parg : tree -> bool) (fs : fields) (x : tree) : bool :=
+    match fs, x with
+    | FUnit, Unit => true
+    | FTuple l, Tup xs => forall2b (fun f y => has_dty parg (fty f) y) l xs
+    | FNamed l, Rec xs => forall2b (fun f ny => N.eqb (fst ny) (fname f) && has_dty parg (fty f) (snd ny)) l xs
+    | _, _ => false
+    end.
+
+  Fixpoint dhas_variants (parg : tree -> bool) (vs : list variant) (vn : N) (body : tree) : bool :=
+    match vs with
+    | [] => false
+    | v :: vs' => if N.eqb (vname v) vn then dhas_fields parg (vfields v) body else dhas_variants parg vs' vn body
+    end.
+
+  Definition dhas_def (parg : tree -> bool) (dd : def) (x : tree) : bool :=
+    match dd with
+    | DStruct _ fs => dhas_fields parg fs x
+    | DEnum _ vs => match x with Var vn body => dhas_variants parg vs vn body | _ => false end
+    end.
+End DataTyping.
+
+Fixpoint dhas_env (E : env) (k : nat) (parg : tree -> bool) (x : tree) : bool :=
+  match E with
+  | [] => false
+  | d :: E' => if Nat.eqb k (length E')
+               then match data_def d with Some dd => dhas_def (dhas_env E') parg dd x | None => false end
+               else dhas_env E' k parg x
+  end.
+
+Definition dparam_has (E : env) (targ : option ty) : tree -> bool :=
+  match targ with Some ta => has_data_of (dhas_env E) (fun _ => false) ta | None => fun _ => false end.
+(* [x] is a value of the generated definition [dd] (= data_def d), instantiated at [targ] *)
+Definition data_of_def (E : env) (dd : def) (targ : option ty) (x : tree) : bool :=
+  dhas_def (dhas_env E) (dparam_has E targ) dd x.
 
 (* ------------------------------------------------------------------ *)
 (* leaves *)
